@@ -50,11 +50,6 @@ def urlParse (o : UriOracle) (s : String) : Go.R URL :=
   | .error e => .error e
 end UriOracle
 
-namespace OPClient
-/-- `client.(HasRedirectGlobs)`: did the registration opt into globs? -/
-def is_HasRedirectGlobs (c : OPClient) : Bool := c.globs.isSome
-def RedirectURIGlobs (c : OPClient) : List String := c.globs.getD []
-end OPClient
 
 namespace Go
 /-- `for _, v := range l { body }` where the body either returns (`some r`) or falls through (`none`) -/
